@@ -24,7 +24,7 @@ struct Family {
   std::string pattern;
   bool recursive;
   std::string plugin;
-  bool userXattr;
+  int userXattr;  // 0 trusted, 1 user, 2 prefer=user/avoid=trusted, 3 prefer=trusted/avoid=user
   int mode;  // 0: full product over (pref, metric, outcome) of all nodes; 1: deviation-bounded over all attributes
   int maxDev;
 };
@@ -102,13 +102,14 @@ struct C03 : vr::Driver {
       plugins.push_back("kill_by_io_cost");
     }
     for (auto& pl : plugins)
-      for (int ux = 0; ux < 2; ux++) {
+      for (int ux = 0; ux < 4; ux++) {
         if (ux && !th && pl != "kill_by_swap_usage") continue;
-        fams.push_back({"flat3-product", flat, "p/*", false, pl, ux != 0, 0, 0});
-        fams.push_back({"flat3-recursive-dev", flat, "p", true, pl, ux != 0, 1, th ? 3 : 2});
-        fams.push_back({"two-parents-dev", two, "p*", true, pl, ux != 0, 1, th ? 3 : 2});
-        fams.push_back({"chain-dev", chain, "p", true, pl, ux != 0, 1, th ? 3 : 2});
-        fams.push_back({"two-parents-nonrecursive-dev", two, "p*", false, pl, ux != 0, 1, 2});
+        fams.push_back({"flat3-product", flat, "p/*", false, pl, ux, 0, 0});
+        if (ux >= 2) continue;  // mixed namespaces: the full product on the flat tree only
+        fams.push_back({"flat3-recursive-dev", flat, "p", true, pl, ux, 1, th ? 3 : 2});
+        fams.push_back({"two-parents-dev", two, "p*", true, pl, ux, 1, th ? 3 : 2});
+        fams.push_back({"chain-dev", chain, "p", true, pl, ux, 1, th ? 3 : 2});
+        fams.push_back({"two-parents-nonrecursive-dev", two, "p*", false, pl, ux, 1, 2});
       }
     for (size_t fi = 0; fi < fams.size(); fi++) enumerate((int)fi);
   }
@@ -124,7 +125,7 @@ struct C03 : vr::Driver {
     std::string n;
     for (auto& x : f.nodes) n += x + " ";
     return f.name + " plugin=" + f.plugin + " cgroup=" + f.pattern + " recursive=" + (f.recursive ? "1" : "0") + " xattr-ns=" +
-           (f.userXattr ? "user" : "trusted") + " nodes={" + n + "} " +
+           (f.userXattr == 0 ? "trusted" : f.userXattr == 1 ? "user" : f.userXattr == 2 ? "prefer:user,avoid:trusted" : "prefer:trusted,avoid:user") + " nodes={" + n + "} " +
            (f.mode == 0 ? "full product of (pref x metric x outcome) per matched node" : "all attribute assignments with <= " + std::to_string(f.maxDev) + " deviations from the default node");
   }
   std::string klass(size_t i) override { return fams[items[i].fam].plugin; }
@@ -260,7 +261,9 @@ struct C03 : vr::Driver {
           if (isParentOf(n.rel, o.rel)) leaf = false;
         c.nprocs = (leaf && n.pop) ? 2 : 0;
         c.pref = n.pref;
-        c.userXattr = f.userXattr;
+        c.userXattr = f.userXattr == 1;
+        if (f.userXattr == 2) c.preferNs = 1, c.avoidNs = 0;
+        if (f.userXattr == 3) c.preferNs = 0, c.avoidNs = 1;
         c.oomGroup = n.og;
         c.outcome = n.outcome ? 1 : 0;  // 1 = every kill fails with ESRCH -> nothing signalled
         // same key for every plugin's metric
